@@ -715,7 +715,7 @@ func init() {
 	dawgWriters := []string{"(*dawg.Dawg).commonPrefix", "(*dawg.Dawg).addSuffix", "dawg.replaceOrRegister", "(*dawg.Dawg).GobDecode", "(*dawg.Builder).Add", "(*dawg.Builder).Finish"}
 	register(&propDef{
 		id:          "C12",
-		explanation: "Decides four structural clauses of the builder/query split: REJECT-PURE (on every CFG path of Builder.Add that ends in a non-nil error return nothing rooted at the receiver is written, lazy Initialise excepted), MUSTGUARD (removing the edges on which 'previous word < new word' or 'no previous word' holds disconnects every builder mutation from the entry of Add, so neither equal nor smaller words can be added), NONEMPTY (replaceOrRegister's t.links[len-1] needs len(t.links) >= 1, lifted to a precondition and proved at each call site by E-PROVE), PURE + WHO-WRITES (queries write no Dawg node; the only functions that can are the construction-time ones). Does not decide the accepted language, minimality or ranks.",
+		explanation: "Decides four structural clauses of the builder/query split: REJECT-PURE (on every CFG path of Builder.Add that ends in a non-nil error return nothing rooted at the receiver is written, lazy Initialise excepted), MUSTGUARD (removing the edges on which 'previous word < new word' or 'no previous word' holds disconnects every builder mutation from the entry of Add, so neither equal nor smaller words can be added), NONEMPTY (replaceOrRegister's t.links[len-1] needs len(t.links) >= 1, lifted to a precondition and proved at each call site by E-PROVE), PURE + WHO-WRITES (queries write no Dawg node; the only functions that can are the construction-time ones), EQUIV (areEquivalent, on whose answer two states are merged, is explored under the hypotheses 'the nodes differ in finality / in the number of children / in one label / in one target': with the control-flow edges that the hypothesis rules out removed - the equal edge of the field's comparisons, the normal exit of a comparison loop whose recognised index range, together with explicitly compared indices, covers the whole slice - no return that may be true is reachable). Does not decide the accepted language, minimality or ranks.",
 		notDecided:  []string{"that the automaton accepts exactly the words added", "minimality (node count)", "rank arithmetic of Lookup", "that Finish can only be called once (done is never set)"},
 		assumptions: []string{"bytes.Compare returns a value in {-1,0,1}"},
 		run: func(c *Ctx, tier string) []*RuleResult {
@@ -736,12 +736,30 @@ func init() {
 			}
 			ww := ruleWhoWrites(c, "WHO-WRITES", "dawg", "Dawg", dawgWriters, "only construction-time functions may write Dawg nodes")
 			ww.MinInst = 4
-			bw := &RuleResult{Rule: "BYTEWISE", Doc: "words are byte strings: no function of package dawg iterates a string with range or converts between strings and runes", MinInst: 20}
+			bw := &RuleResult{Rule: "BYTEWISE", Doc: "words are byte strings: no function of package dawg iterates a string with range or converts between strings and runes", MinInst: 10}
 			ruleBytewise(c, bw, "dawg")
-			return []*RuleResult{rp, mg, ne, pure, ww, bw}
+			eq := &RuleResult{Rule: "EQUIV", Doc: "areEquivalent answers true only after comparing finality, the number of children, every label and every target", MinInst: 4}
+			if c.FnOpt("dawg.areEquivalent") != nil {
+				ruleEquiv(c, eq, equivSpec{fn: "dawg.areEquivalent", typ: "Dawg", scalars: []string{"final"}, slices: []string{"linkLabels", "links"}})
+			} else {
+				eq.MinInst = 0
+				eq.note("dawg.areEquivalent no longer exists: the state comparison is not judged")
+			}
+			return []*RuleResult{rp, mg, ne, pure, ww, bw, eq}
 		},
 		controls: func(ctl *Ctx) []*RuleResult {
 			var out []*RuleResult
+			for _, n := range []string{"BadNoFinal", "BadSkipsFirst", "BadNoLength", "BadEarlyOut"} {
+				e := &RuleResult{Rule: "EQUIV"}
+				ruleEquiv(ctl, e, equivSpec{fn: "equivctl." + n, typ: "N", scalars: []string{"final"}, slices: []string{"labels", "links"}})
+				out = append(out, e)
+			}
+			eg := &RuleResult{Rule: "EQUIV"}
+			for _, n := range []string{"GoodRange", "GoodBackwards", "GoodOneLoop"} {
+				ruleEquiv(ctl, eg, equivSpec{fn: "equivctl." + n, typ: "N", scalars: []string{"final"}, slices: []string{"labels", "links"}})
+			}
+			out[0].Findings = append(out[0].Findings, eg.Findings...)
+			out[0].Undecided = append(out[0].Undecided, eg.Undecided...)
 			rp := &RuleResult{Rule: "REJECT-PURE"}
 			ruleRejectPure(ctl, rp, "(*guardctl.B).BadAddWritesFirst", "(*guardctl.B).init")
 			ruleRejectPure(ctl, rp, "(*guardctl.B).GoodAdd", "(*guardctl.B).init")
